@@ -190,6 +190,20 @@ fn stepper_programs() -> Vec<Vec<u8>> {
         t.push(')');
         if let Some(b) = asm_bytes(&t) { v.push(b.clone()); if let Some(w) = asm_bytes(&format!("(c (q . 9) {})", t)) { v.push(w); } }
     } }
+    // operator atoms spelled with redundant leading bytes (0x0004, 0x000001, 0xff..): the consensus evaluator knows no such operator
+    // (finding F26: the stepping evaluator read the operator as a number, so 0x0004 consed and 0x0001 quoted)
+    for (op, args) in [(1u8, ". 5"), (2, "(q . 1) ()"), (3, "1 (q . 5) (q . 6)"), (4, "1 1"), (5, "(q . (7 . 8))"), (6, "(q . (7 . 8))"), (7, "1"), (8, "(q . 7)"), (9, "1 1"), (11, "(q . 7)"), (16, "(q . 1) (q . 2)"), (17, "(q . 1) (q . 2)"), (29, "(q . 1) (q . 2)"), (60, "(q . 1) (q . 2)"), (0x80, "1"), (0xff, "1")] {
+        for pre in ["00", "0000", "000000", "ff", "ffff"] {
+            if let Some(b) = asm_bytes(&format!("(0x{}{:02x} {})", pre, op, args)) { v.push(b.clone()); if let Some(w) = asm_bytes(&format!("(c (q . 9) (0x{}{:02x} {}))", pre, op, args)) { v.push(w); } }
+        }
+    }
+    // ((op) . operands): the consensus evaluator hands the operands to op unevaluated (finding F27: the stepping evaluator
+    // ran (op) as a program to obtain an operator)
+    for t in ["((16) 2 5)", "((4) 2 5)", "((5) (7 . 8))", "((6) (7 . 8))", "((q) . 5)", "((q) 5)", "((a) (q . 1) 7)", "((a) 1 7)", "((a) 1)", "((i) 0 5 6)", "((i) 1 5 6)", "((i) 1 5)",
+              "(((16)) 2 5)", "((16 . 1) 2 5)", "((16 . 0) (q . 2) (q . 5))", "((11) 2 5)", "(c (q . 9) ((16) 2 5))", "((0x0004) 2 5)", "((\"+\") 2 5)", "((()) 2 5)", "((16))", "((4) 2)",
+              "((16) 2 5 . 1)", "((a) 1 7 . 1)", "((4) 2 5 . 1)"] {
+        if let Some(b) = asm_bytes(t) { v.push(b); }
+    }
     v
 }
 fn asm_bytes(text: &str) -> Option<Vec<u8>> {
@@ -1672,6 +1686,7 @@ pub fn search(name: &str, seed: u64) -> Value {
         }
         "choose_path" | "flatten_signed_int" | "truthy" | "atom_value" | "run_step" | "combine" | "eval_args" | "generate_argument_refs" => {
             for p in stepper_programs() { for e in 0..5u8 {
+                if skipped(&json!({"program": p, "env": e})) { continue; }
                 if let Some(mut v) = step_vs_consensus(&p, e) { v["input"] = json!({"program": p, "env": e}); return v; }
             } }
             nf("stepper agrees with clvmr run_program on the enumerated programs x 4 environments")
